@@ -90,6 +90,113 @@ def task(version, fixed, label):
     return chk.to_dict()
 
 
+def task_fork4(digits, d4=None):
+    """v4 with REAL scoring inside one macrovector fork (the case split of C02): the rating the
+    constructor stores, severities() and the JSON field are the official scale's rating of the
+    score the same constructor reports - for every assignment of the fork"""
+    from . import score4
+
+    chk = Check("C09")
+    sess = Session(npat=512)
+    vars_ = sess.assign_vars(4)
+    m, vc = sess.m, sess.vc
+    smod, d, e, items = score4.spec_macrovector(sess, vars_)
+    g = score4.mv_guard(sess, items, digits)
+    label = "v4 real scoring mv=" + "".join(str(x) for x in digits)
+    if d4 is not None:
+        du, raised = sess.call(smod.globals["distance"], [e, smod.globals["EQ4_MAX"][digits[3]], ["SC", "SI", "SA"]])
+        if isinstance(d4, tuple):
+            g2 = m.AND(g, m.NOT(m.or_all([vc.guard_eq(du, k) for k in d4[1]])))
+        else:
+            g2 = m.AND(g, vc.guard_eq(du, d4))
+        if m.is_sat(g2, "vacuity") is not True:
+            chk.absorb(sess)
+            return chk.to_dict()
+        g = g2
+        label += "[d4=%s]" % (d4 if not isinstance(d4, tuple) else "rest")
+    m.restrict(g, nsamples=128)
+    vec = sess.vector_from_vars(4, vars_)
+    mod = sess.load("cvss")
+    C.set_epoch(1)
+    cls = mod.globals["CVSS4"]
+
+    def mk_replay(model, what):
+        return {"kind": "c09", "version": 4, "vector": sess.vector_string(4, model), "what": what}
+
+    obj, raised = sess.call(cls, [vec])
+    for cond, exc in raised:
+        nm = type(exc).__name__ if isinstance(exc, BaseException) else exc.cls.name
+        O.must_not(sess, chk, vc.c_any(cond), "%s: constructor raises %s" % (label, nm), mk_replay)
+    sc = O.items_of(O.call_ok(sess, chk, obj, "scores", label=label, mk_replay=mk_replay))
+    sv = O.items_of(O.call_ok(sess, chk, obj, "severities", label=label, mk_replay=mk_replay))
+    sev_attr = sess.it.get_attr(obj, "severity", sess.top, vc.CT)
+    js = O.call_ok(sess, chk, obj, "as_json", kwargs={"sort": False, "minimal": False}, label=label, mk_replay=mk_replay)
+    exposed = [("severities()[0]", sv[0]), ("CVSS4.severity", sev_attr)]
+    if isinstance(js, SymDict) and "baseSeverity" in js.pres:
+        exposed.append(("as_json()['baseSeverity']", js.vals["baseSeverity"]))
+    npairs = 0
+    for g_, leaf in vc.alts(sc[0]):
+        prob = O.score_wellformed_problem(leaf, allow_none=False)
+        if prob is not None:
+            O.must_not(sess, chk, g_, "%s: score %s" % (label, prob), mk_replay)
+    for name, val in exposed:
+        pairs = sess.lift(lambda a, b: (a, b), [sc[0], val])
+        for g_, (a, b) in vc.alts(pairs):
+            npairs += 1
+            if O.score_wellformed_problem(a, True) is not None:
+                continue
+            want = O.severity_of(4, a)
+            if not isinstance(b, str) or b.upper() != want.upper():
+                O.must_not(sess, chk, g_, "%s: score %r, %s is %r, official scale says %r" % (label, a, name, b, want), mk_replay)
+    chk.add_vc("%s: all %d reachable (score, exposed rating) pairs lie on the official scale (offending ones are separate conditions)" % (label, npairs), "unsat", 0, 0, trivial=True)
+    chk.extra["v4_real_scoring_forks"] = 1
+    chk.extra["score_rating_pairs_examined"] = npairs
+    chk.absorb(sess)
+    return chk.to_dict()
+
+
+def fork4_tasks():
+    """the fork tasks of C02 (same case split); quick tier: a seeded sample within a CPU budget,
+    thorough tier: all of them"""
+    import json
+    import os
+    import random
+
+    from spec import cvss4_spec as S4
+
+    from . import score4
+
+    _, feasible = score4.enumerate_macrovectors()
+    tasks = []
+    for d in feasible:
+        if S4.EQ4_DEPTH[d[3]] * S4.EQ36_DEPTH[(d[2], d[5])] >= 35:
+            ks = list(range(0, S4.EQ4_DEPTH[d[3]] + 3))
+            for k in ks:
+                tasks.append((d, k))
+            tasks.append((d, ("rest", ks)))
+        else:
+            tasks.append((d,))
+    total = len(tasks)
+    if C.tier() == "thorough":
+        return tasks, total
+    try:
+        costs = json.load(open(os.path.join(os.path.dirname(os.path.abspath(__file__)), "c02_costs.json")))
+    except Exception:  # noqa: BLE001
+        costs = {}
+    rng = random.Random(C.seed() + 9)
+    order = list(tasks)
+    rng.shuffle(order)
+    budget = float(os.environ.get("VERIF_C09_BUDGET_S", "900"))
+    picked, spent = [], 0.0
+    for t in order:
+        c = 0.6 * costs.get(score4.task_label(t), 4.0) + 2.0
+        if c > 40 or spent + c > budget:
+            continue
+        picked.append(t)
+        spent += c
+    return picked, total
+
+
 def main():
     chk = Check("C09")
     tasks = []
@@ -100,6 +207,10 @@ def main():
     results = C.run_tasks(task, tasks)
     for r in results:
         chk.absorb_dict(r)
+    f4, f4total = fork4_tasks()
+    for r in C.run_tasks(task_fork4, f4):
+        chk.absorb_dict(r)
+    chk.extra["v4_real_scoring_fork_tasks"] = "%d of %d" % (len(f4), f4total)
     # summarise edge reachability
     for version in (2, 3, 4):
         key = "band_edges_reached_v%d" % version
@@ -108,7 +219,8 @@ def main():
             agg.setdefault(k, set()).update(v)
         chk.extra[key] = {k: sorted(v) for k, v in agg.items()}
     chk.input_model = "M-ASSIGN for v2 (27 sessions) and v3 (48 sessions), real constructors; v4: real parse/fill-in, base_score abstracted to an arbitrary one-decimal float in [0,10] (every band edge is then explored; the v4 score's own well-formedness is checked in every fork of C02)"
-    chk.bounds = ["none on the metric domain"]
+    chk.input_model += "; v4 additionally with REAL scoring inside macrovector forks (case split of C02: %d of %d fork tasks in this tier): the rating is compared with the score the same constructor reports" % (len(f4), f4total)
+    chk.bounds = ["none on the metric domain for v2/v3 and for the v4 run with abstracted score; v4 with real scoring: the fork tasks listed above (quick tier: seeded sample within a CPU budget; thorough tier: all)"]
     chk.outside = ["v4: relation between metrics and score (C02)", "strings outside the grammar (C04)"]
     chk.stubs = ["CVSS4.compute_base_score replaced by 'base_score := arbitrary element of {0.0, 0.1, ..., 10.0}'"]
     chk.assumptions = ["official scales typed in harness/objects.py (FIRST v3.1 section 5 / v4.0 section 6; NVD v2 ranges)",
